@@ -13,6 +13,13 @@ against the ghost trace (token consumed, callee called, node built) of every pat
 conforms when some run of the rule consumes exactly the path's events, builds exactly the returned node, and all
 token guards the rule states (operator sets of the level, exit condition) are implied by the path condition.
 
+Every operator-parsing rule states the returned node as the operator's node class applied to the parsed operands
+(`Nd(cls, ...)`: a node built on this path, of exactly that class, every field given): an operand handed back in place
+of an application ("expected a new Pos node, got an operand"), a different class, or a dropped / duplicated operand
+fails the structure match on that path.  Operands are arbitrary Expr nodes: isinstance() on them forks (C01's model) and
+type() of one of their opaque field values is an uninterpreted class, so special-casing on the operand's shape is
+explored, not "unsupported".
+
 Loops are cut by induction, without naming any local variable of the real code:
   base    the real loop is entered from the real pre-state (0 and 1 iterations are followed to the end of the method);
   step    a *generic* loop-head state G is built (everything the loop assigns / writes replaced by an arbitrary value of
@@ -36,7 +43,7 @@ import time
 import z3
 
 from pyvc.contract import VC, Res, Outcome
-from pyvc.values import (State, Sym, Ref, HObj, HList, HDict, Exc, Event, Unsupported, CheckerError, sym, fresh, fresh_name,
+from pyvc.values import (Obj, State, Sym, Ref, HObj, HList, HDict, Exc, Event, Unsupported, CheckerError, sym, fresh, fresh_name,
                          fresh_arr)
 from pyvc.interp import Raised, Ctl, OK
 from pyvc.smt import to_term, check_sat
@@ -50,6 +57,7 @@ from jinja2.exceptions import TemplateSyntaxError
 from contracts import c01_parser as CP
 
 PROP = "C02"
+PY_TYPE = z3.Function("py_type", Obj, Obj)
 TOK_EVENTS = {"TokenStream.__next__", "TokenStream.expect", "TokenStream.next_if", "TokenStream.skip"}
 STREAM_SPECS = ["TokenStream.__next__", "TokenStream.expect", "TokenStream.next_if", "TokenStream.skip_if", "TokenStream.look",
                 "TokenStream.skip"]
@@ -1548,6 +1556,28 @@ class Level(VC):
                 wrap_with_cursor(I, nm, lambda: self.world)
         CP.install_unicodedata(I)      # unicodedata.normalize("NFKC", s) -> NFKC(s), uninterpreted
 
+        # an operand returned by a parse_* callee is an arbitrary Expr: it MAY be a Const whose value MAY be a number.
+        # isinstance() on it forks (C01's model); type() of an opaque field value is an uninterpreted class (compared by identity)
+        from pyvc import models as _models
+        prev_type = I.specs.get(("fn", id(type)))
+
+        def builtin_type(I_, st, args, kwargs, node):
+            if len(args) == 1 and isinstance(args[0], Sym) and args[0].k == "obj":
+                return [(st, Sym(PY_TYPE(args[0].t), "obj", {"type_of"}))]
+            if prev_type is not None:
+                return prev_type(I_, st, args, kwargs, node)
+            r = _models.instantiate(I_, st, type, args, kwargs, node)
+            if r is None:
+                raise Unsupported("type(...)", node)
+            return r
+
+        I.specs[("fn", id(type))] = builtin_type
+        # arithmetic a parser method might do on an operand's opaque constant value (folding by hand) is an abstract callee
+        for op in (ast.USub, ast.UAdd, ast.Invert):
+            I.specs.setdefault(("unop", op), A.abstract_fn(f"operator.{op.__name__}", returns="obj", raises=[("any", Exception)]))
+        for op in (ast.Add, ast.Sub, ast.Mult, ast.Div, ast.FloorDiv, ast.Mod, ast.Pow):
+            I.specs.setdefault(("binop", op), A.abstract_fn(f"operator.{op.__name__}", returns="obj", raises=[("any", Exception)]))
+
         def join(I_, st, args, kwargs, node):
             sep, lst = args[0], args[1]
             if isinstance(sep, str) and isinstance(lst, Ref) and isinstance(st.get(lst), HList) and st.get(lst).concrete:
@@ -1747,6 +1777,29 @@ def native_precedence(w=None):
                 pass
             except Exception as ex:  # noqa
                 problems.append(f"{src!r}: {type(ex).__name__} instead of TemplateSyntaxError")
+        # every operator written in the source is an application of its own: observable where the operator's meaning can be
+        # replaced (sandbox: "intercepted_unops / intercepted_binops ... call_unop / call_binop is invoked instead")
+        from jinja2.sandbox import SandboxedEnvironment
+
+        class Hooked(SandboxedEnvironment):
+            intercepted_unops = frozenset(["+", "-"])
+            intercepted_binops = frozenset(["+", "-", "*", "/", "//", "%", "**"])
+
+            def call_unop(self, context, operator, arg):
+                return ("U", operator, arg)
+
+            def call_binop(self, context, operator, left, right):
+                return ("B", operator, left, right)
+
+        henv = Hooked()
+        for src, want in (("+3", ("U", "+", 3)), ("-3", ("U", "-", 3)), ("+a", ("U", "+", 7)), ("-(+3)", ("U", "-", ("U", "+", 3))), ("+1.5", ("U", "+", 1.5)),
+                          ("a + 0", ("B", "+", 7, 0)), ("a ** 1", ("B", "**", 7, 1)), ("a * 1 - 0", ("B", "-", ("B", "*", 7, 1), 0))):
+            try:
+                got = henv.compile_expression(src)(a=7)
+            except Exception as ex:  # noqa
+                got = f"{type(ex).__name__}: {ex}"
+            if got != want:
+                problems.append(f"{src!r} under an environment that replaces the operators evaluates to {got!r}, every written operator applied gives {want!r}")
     except Exception as ex:  # noqa
         problems.append(f"environment setup failed: {type(ex).__name__}: {ex}")
     return (bool(problems), "; ".join(problems[:4]) or f"{len(PRECEDENCE_FAMILY)} expressions evaluate as their documented reading")
